@@ -22,17 +22,30 @@ def _cfg(text, name):
     return p
 
 
+class Refused(Exception):
+    """the constructor refuses this rate as too high for it (the statement allows refusing unrepresentably high rates): the runs with
+    this interval are skipped - the tiny intervals only serve to exhaust the phase offsets, realistic ones are always run"""
+
+
 def _mk(D):
     from gufo.snmp.policer import RPSPolicer
     # rps such that int(1e9 / rps) == D exactly
-    p = RPSPolicer(1e9 / D)
+    try:
+        p = RPSPolicer(1e9 / D)
+    except ValueError:
+        raise Refused(D)
     if p._delta != D:
         # float division may be off by one for some D; search neighbours
         for eps in (1e-7, -1e-7, 1e-6, -1e-6):
-            q = RPSPolicer(1e9 / D * (1 + eps * 1e-3))
+            try:
+                q = RPSPolicer(1e9 / D * (1 + eps * 1e-3))
+            except ValueError:
+                continue
             if q._delta == D:
                 return q
-        raise ToolError("cannot construct policer with interval %d (got %d)" % (D, p._delta))
+        # the limiter works with another interval than the configured rate gives: not a tool problem - the runs are judged against
+        # the CONFIGURED interval D (events carry D), so a shorter real interval shows as windows that are too short
+        return p
     return p
 
 
@@ -100,7 +113,10 @@ def replay_graph(chk, rec, D, transitions, modes, probes):
             if fk not in paths:
                 raise ToolError("unreachable source state in exported graph: %s" % fk)
             for mode in modes:
-                pol = _mk(D)
+                try:
+                    pol = _mk(D)
+                except Refused:
+                    continue
                 st = {"rel": BASE}
                 first_ev = rec.n
                 rec.emit({"ev": "New", "D": D})
@@ -178,7 +194,10 @@ class _TwoWorkers:
 def random_trace(rec, rng, D, steps, gapcap, caller=None):
     """caller: how the (strictly sequential) calls reach the policer: None = the calling thread; otherwise a function
     caller(fn, *args) that runs each call in another thread - the limiter's state belongs to the policer, not to a thread"""
-    pol = _mk(D)
+    try:
+        pol = _mk(D)
+    except Refused:
+        return
     rec.emit({"ev": "New", "D": D})
     base = BASE + rng.randrange(10 ** 6)
     rel = base
@@ -469,6 +488,33 @@ def run(tier):
             gapcap = max(1, min(gapcap, 2 ** 31 - 1 - 2 * D))
             random_trace(rec, rng, D, steps, gapcap)
             ntr += 1
+    # the configured RATE: 1200 requests, each asked for at the release of the previous one, through limiters configured with rates whose
+    # interval is not a round number of nanoseconds / microseconds / milliseconds (the long window sees what the short ones cannot)
+    from gufo.snmp.policer import RPSPolicer as _RP
+    for rps in (3, 7, 30, 150, 300, 700, 999, 0.7, 12.5):
+        try:
+            pol = _RP(rps)
+        except Exception as e:  # noqa
+            rec.emit({"ev": "Crash", "exc": type(e).__name__})
+            continue
+        ts = BASE
+        first = last = None
+        maxdelay = 0
+        n = 1200 if rps >= 1 else 400
+        try:
+            for i in range(n):
+                r = pol.get_timeout(ts)
+                delay = 0 if r is None else int(r)
+                maxdelay = max(maxdelay, delay)
+                ts = ts + delay
+                first = ts if first is None else first
+                last = ts
+        except Exception as e:  # noqa
+            rec.emit({"ev": "Crash", "exc": type(e).__name__})
+            continue
+        rec.emit({"ev": "Rate", "D": int(10 ** 6 // rps) if isinstance(rps, int) else int(10 ** 6 / rps), "n": n, "span": min((last - first + 999) // 1000, 2 ** 31 - 1), "maxdelay": min(maxdelay // 1000, 2 ** 31 - 1)})
+        chk.case(("rate", rps))
+        ntr += 1
     # the same sequential histories with every call made from another thread (a fresh thread per call; two threads taking turns)
     tw = _TwoWorkers()
     for D, steps in [(3, 60), (1000, 60), (10 ** 6, 60), (10 ** 8, 40)]:
@@ -479,7 +525,10 @@ def run(tier):
     # realistic intervals (rps 2 .. 1000): calls landing at chosen fractions of a slot after k whole idle intervals
     for D in (10 ** 6, 10 ** 7, 10 ** 8, 5 * 10 ** 8):
         for rep in range(2 if not thorough else 10):
-            pol = _mk(D)
+            try:
+                pol = _mk(D)
+            except Refused:
+                continue
             rec.emit({"ev": "New", "D": D})
             rel = BASE + rng.randrange(10 ** 9)
             first = True
